@@ -33,6 +33,16 @@ std::string mkstring(uint64_t seed, int len)
 {
   std::string s;
   bool binary = (seed >> 7) & 1;  // every other string holds arbitrary bytes, NUL included
+  if (len > 4096) {
+    // long strings: eight bytes per draw
+    s.resize((size_t)len);
+    for (int i = 0; i < len; i += 8) {
+      uint64_t r = mix(seed + (uint64_t)i);
+      for (int k = 0; k < 8 && i + k < len; k++, r >>= 8)
+        s[(size_t)(i + k)] = binary ? (char)r : (char)('a' + (r & 0xff) % 26);
+    }
+    return s;
+  }
   for (int i = 0; i < len; i++) {
     uint64_t r = mix(seed + (uint64_t)i);
     s += binary ? (char)(r % 7 == 0 ? 0 : r >> 8) : (char)('a' + r % 26);
@@ -42,6 +52,7 @@ std::string mkstring(uint64_t seed, int len)
 std::vector<int> mkvec(uint64_t seed, int len)
 {
   std::vector<int> v;
+  v.reserve((size_t)len);
   for (int i = 0; i < len; i++)
     v.push_back((int)mix(seed * 31 + (uint64_t)i));
   return v;
